@@ -245,7 +245,7 @@ pub fn dump(args: &[String]) -> i32 {
     // C10 / C19: what a CLEAN reopen of the recovered directory would show, probed on a copy while this handle is alive
     // (nothing is in flight after `open` returned): occupancy, root and sequence number must be those of the recovering
     // handle — what recovery patched only in memory shows up here, before the follow-up commit can heal it
-    {
+    if recovery_events > 2 {
         let copy = format!("{dir}.r2");
         let _ = std::fs::remove_dir_all(&copy);
         if copy_db_files(&dir, &copy).is_ok() {
@@ -276,37 +276,8 @@ pub fn dump(args: &[String]) -> i32 {
         }
         Err(e) => rep.push_str(&format!("followup finish-error {e:#}\n")),
     }
-    let occ1 = db.hash_table_utilization().occupied;
-    rep.push_str(&format!("occupied {}\n", occ1));
-    // C10 / C19: a CLEAN close and reopen of the recovered store must be transparent — same root, sequence number and
-    // hash-table occupancy (what recovery patched only in memory shows up here)
-    let (root1, seqn1) = (db.root().into_inner(), db.sync_seqn());
+    rep.push_str(&format!("occupied {}\n", db.hash_table_utilization().occupied));
     drop(db);
-    let _ = iohook::uninstall();
-    let mut tries = 0;
-    loop {
-        match Nomt::<Blake3Hasher>::open(cfg.options(&dir)) {
-            Ok(db2) => {
-                rep.push_str(&format!(
-                    "reopen2 {} {} {} {}\n",
-                    occ1,
-                    db2.hash_table_utilization().occupied,
-                    (db2.root().into_inner() == root1) as u8,
-                    (db2.sync_seqn() == seqn1) as u8
-                ));
-                drop(db2);
-                break;
-            }
-            Err(e) => {
-                tries += 1;
-                if tries > 400 {
-                    rep.push_str(&format!("reopen2-error {e:#}\n").replace(' ', "_").replace("reopen2-error_", "reopen2-error "));
-                    break;
-                }
-                std::thread::sleep(std::time::Duration::from_millis(5));
-            }
-        }
-    }
     rep.push_str("END\n");
     let _ = std::fs::write(&out, rep);
     0
